@@ -23,7 +23,7 @@ TRUSTED = [
 ]
 RULE = (
     "every digraph on <=3 revisions (thorough: 4, dependencies restricted) with arbitrary down_revision tuples (<=2, self-loops allowed) and "
-    "depends_on (<=1), plus random larger graphs with planted cycles through merge points and dependencies; non-trivial = contains a cycle or "
+    "depends_on (<=1), each also with one parent / dependency named twice, plus random larger graphs with planted cycles through merge points and dependencies; non-trivial = contains a cycle or "
     "has >=3 revisions; distinct by history"
 )
 ASSUMPTIONS = ["every referenced revision id exists in the history (dangling references are a different error)"]
@@ -63,6 +63,28 @@ def planted(rng, n):
                 r["deps"] = r["deps"] + [ids[b]]
     rng.shuffle(hist)
     return hist
+
+
+def repeated(h, rng):
+    """the same history with one parent named twice in a down_revision tuple (what hand-squashing two former parents
+    into one id leaves behind: `down_revision = ("b2", "b2")`), or a dependency named twice / equal to a down revision.
+    The graph - and so whether it has a cycle - is unchanged."""
+    h2 = [dict(r, down=list(r["down"]), deps=list(r["deps"])) for r in h]
+    cands = [r for r in h2 if r["down"] or r["deps"]]
+    if not cands:
+        return None
+    r = rng.choice(cands)
+    kind = rng.choice(["down-twice", "down-twice", "dep-twice", "dep-is-down"])
+    if kind == "down-twice" and r["down"]:
+        d = rng.choice(r["down"])
+        r["down"].insert(rng.randrange(len(r["down"]) + 1), d)
+    elif kind == "dep-twice" and r["deps"]:
+        r["deps"] = r["deps"] + [rng.choice(r["deps"])]
+    elif r["down"]:
+        r["deps"] = r["deps"] + [rng.choice(r["down"])]
+    else:
+        return None
+    return h2
 
 
 def malformed(rng, n):
@@ -108,11 +130,19 @@ def histories(ctx, rng):
             h2 = [dict(r) for r in h]
             h2[k % n]["labels"] = ["lbl"]
             yield "exhaustive-%d-labelled" % n, h2
+            h3 = repeated(h, rng)
+            if h3 is not None:
+                yield "exhaustive-%d-repeated-parent" % n, h3
     if ctx.thorough:
         for h in all_digraphs(4, max_down=2, max_deps=0):
             yield "exhaustive-4-nodeps", h
     for _ in range(20000 if ctx.thorough else 1500):
-        yield "planted", planted(rng, rng.randint(3, 12))
+        h = planted(rng, rng.randint(3, 12))
+        yield "planted", h
+        if rng.random() < 0.25:
+            h3 = repeated(h, rng)
+            if h3 is not None:
+                yield "planted-repeated-parent", h3
 
 
 def run(ctx, rng_name="main"):
